@@ -31,6 +31,11 @@ def run(chk: Check) -> None:
     both = [v for v in vectors if v["manifest"] == "setuppy-trigger" and v["layout"] in ("lf", "crlf") and not v["dryRun"] and v["workers"] == 1
             and "pixee:python/use-set-literal" in v["queue"]]
     sample += [v for v in both if v not in sample][: chk.pick(24, 200)]
+    # ... and the same codemod does both: the fix in setup.py needs the package that is then added to setup.py
+    selfm = [v for v in vectors if v["manifest"] == "setuppy-self" and v["layout"] == "lf" and not v["dryRun"] and v["workers"] == 1
+             and set(v["queue"]) & {"pixee:python/url-sandbox", "pixee:python/sandbox-process-creation", "pixee:python/use-defusedxml", "pixee:python/harden-pickle-load"}]
+    selfm.sort(key=runspace.vkey)
+    sample += [v for v in selfm if v not in sample][: chk.pick(16, 200)]
     scenarios = [runspace.scenario_for(v, f"C03-{i}") for i, v in enumerate(sample)]
     for scn, res, verdicts in runspace.run_and_validate(chk, scenarios):
         v = scn["_v"]
